@@ -128,9 +128,12 @@ func readSeeker(c *harness.Ctx, rng *rand.Rand, class string, blob []byte, idx d
 		failAt = int64(1 + rng.Intn(6))
 		failLen = int64(1 + rng.Intn(2))
 	}
+	errKind := rng.Intn(4) // plain error, bare io.EOF, error wrapping io.EOF, *url.Error{io.EOF}
+	var deliveredFaults int64
 	ms.Fault = func(op string, n int64, id desync.ChunkID) error {
 		if failAt > 0 && n >= failAt && n < failAt+failLen {
-			return dsu.ErrInjected{Msg: fmt.Sprintf("get#%d", n)}
+			atomic.AddInt64(&deliveredFaults, 1)
+			return dsu.FaultErr(errKind, fmt.Sprintf("get#%d", n))
 		}
 		return nil
 	}
@@ -213,13 +216,14 @@ func readSeeker(c *harness.Ctx, rng *rand.Rand, class string, blob []byte, idx d
 		} else if rng.Intn(10) == 0 {
 			// copy everything from the cursor to the end the way `cat` does (io.Copy uses WriteTo where a reader has one)
 			var sink bytes.Buffer
+			d0 := atomic.LoadInt64(&deliveredFaults)
 			wn, err := io.Copy(&sink, ip)
 			hist = append(hist, fmt.Sprintf("Copy@%d->%d,%v", pos, wn, err))
 			if wn != int64(sink.Len()) || pos+wn > L || !bytes.Equal(sink.Bytes(), blob[pos:pos+wn]) {
 				c.Violation("copy-bytes", "io.Copy from position %d of %d delivered %d bytes (reported %d) that differ from the blob\n%v", pos, L, sink.Len(), wn, tail(hist))
 				return
 			}
-			_, injected := err.(dsu.ErrInjected)
+			injected := dsu.IsFault(err) || (err != nil && err != io.EOF && atomic.LoadInt64(&deliveredFaults) > d0)
 			switch {
 			case err == nil:
 				if pos <= L && pos+wn != L {
@@ -252,6 +256,7 @@ func readSeeker(c *harness.Ctx, rng *rand.Rand, class string, blob []byte, idx d
 				n = 1 + rng.Intn(int(sz.Max)*3)
 			}
 			p := make([]byte, n)
+			d0 := atomic.LoadInt64(&deliveredFaults)
 			got, err := ip.Read(p)
 			hist = append(hist, fmt.Sprintf("Read(%d)@%d->%d,%v", n, pos, got, err))
 			if got < 0 || got > n {
@@ -262,7 +267,7 @@ func readSeeker(c *harness.Ctx, rng *rand.Rand, class string, blob []byte, idx d
 				c.Violation("read-bytes", "Read(%d) at position %d returned %d bytes that differ from the blob\n%v", n, pos, got, tail(hist))
 				return
 			}
-			_, injected := err.(dsu.ErrInjected)
+			injected := dsu.IsFault(err) || (err != nil && err != io.EOF && atomic.LoadInt64(&deliveredFaults) > d0)
 			switch {
 			case err == nil:
 				want := int64(n)
@@ -375,10 +380,11 @@ func fuseLeg(c *harness.Ctx, rng *rand.Rand, class string, blob []byte, idx desy
 	var faults int64
 	if faulty {
 		k := int64(2 + rng.Intn(5))
+		errKind := rng.Intn(4)
 		ms.Fault = func(op string, n int64, id desync.ChunkID) error {
 			if n%k == 0 {
 				atomic.AddInt64(&faults, 1)
-				return dsu.ErrInjected{Msg: fmt.Sprintf("get#%d", n)}
+				return dsu.FaultErr(errKind, fmt.Sprintf("get#%d", n))
 			}
 			return nil
 		}
